@@ -54,8 +54,13 @@ def run(ctx, rep):
     rep.not_decided = NOT_DECIDED
     rep.trust("base64 crate; format! machinery")
     prog = ctx.prog("full")
-    enc = prog.find("classic::crypto_pwhash::pwhash_to_string")
-    par = [f for f in prog.fns if f.name == "parse_encoded_pwhash"]
+    # encoder: the function below the public string producers that formats and base64-encodes;
+    # parser: the function below the public string consumers that base64-decodes
+    prod = prog.by_path.get("classic::crypto_pwhash::crypto_pwhash_str", []) + cm.find_method(prog, "pwhash::PwHash", "to_string")
+    cons = prog.by_path.get("classic::crypto_pwhash::crypto_pwhash_str_verify", []) + prog.by_path.get("classic::crypto_pwhash::crypto_pwhash_str_needs_rehash", [])
+    enc = [prog.by_key[k] for k in prog.reach_fns(prod) if any(c.path == "base64::Engine::encode" for c in prog.by_key[k].calls())
+           and any(c.path in ("std::fmt::format", "alloc::fmt::format") for c in prog.by_key[k].calls())]
+    par = [prog.by_key[k] for k in prog.reach_fns(cons) if any(c.path == "base64::Engine::decode" for c in prog.by_key[k].calls())]
     if not enc or not par:
         rep.violation("ANCHOR", "encoder/parser", "pwhash_to_string / parse_encoded_pwhash not found (base64 feature)")
         return
@@ -266,7 +271,9 @@ def rehash(rep, prog, par):
     f = fs[0]
     # comparisons of convert_costs outputs with parsed costs
     cmp_edges = {"t_cost": {"eq": [], "ne": []}, "m_cost": {"eq": [], "ne": []}}
-    conv = [c for c in f.calls() if c.rpath.endswith("convert_costs")]
+    conv = [c for c in f.calls() if c.is_local and len(c.args) == 2 and
+            [cm.view_info(f, list(operand_locals(a))[0])[0] if operand_locals(a) else None for a in c.args] == [2, 3]]
+    cname = conv[0].rpath.split("::")[-1] if conv else "convert_costs"
     for b in range(f.n):
         t = f.blocks[b]["t"]
         if t["k"] != "switch":
@@ -279,7 +286,7 @@ def rehash(rep, prog, par):
         if 0 not in arms:
             continue
         for fld in ("t_cost", "m_cost"):
-            if ("." + fld) in txt and "convert_costs" in txt:
+            if ("." + fld) in txt and (cname + "(") in txt:
                 tt, ft = t["otherwise"], arms[0]
                 if e.a == "Eq":
                     cmp_edges[fld]["eq"].append((b, tt))
